@@ -60,7 +60,7 @@ def c09_jobs(tier):
     jobs = []
     shapes = [(2, 2), (3, 2), (2, 3)] if tier == "quick" else [(2, 2), (3, 2), (2, 3), (3, 3)]
     for which in range(6):
-        sh = shapes if which < 3 else (shapes[:2] if tier == "quick" else shapes[:3])
+        sh = shapes if which < 3 else shapes[:3]  # 2x3 affine: where the layer-blind trace-back first showed without adjacent gaps
         for (n, m) in sh:
             jobs.append(_al("VerifC09_WellFormed", which, n, m))
         for kind in range(8):
@@ -540,15 +540,18 @@ def c14_jobs(tier):
 def c15_jobs(tier):
     jobs = []
     # unit: dp.Aligner.AlignTraps with one trapezoid covering the whole comparison: (|T|, |Q|, minimum hit length, minimum identity %, k)
-    units = [(4, 4, 3, 50, 2), (4, 4, 2, 75, 2)] if tier == "quick" else [(4, 4, 3, 50, 2), (4, 4, 2, 75, 2), (4, 5, 3, 50, 2), (5, 4, 4, 75, 2), (3, 3, 2, 50, 1)]  # 5x5 does not finish in 1500 s (measured)
+    # integers as SMT Int with overflow obligations ("math"): the max-plus DP is 10x faster than as 64-bit bit-vectors (4x4: 20 s vs 196 s)
+    units = [(4, 4, 3, 50, 2), (4, 4, 2, 75, 2), (3, 2, 2, 75, 1), (2, 3, 2, 60, 1), (4, 5, 3, 50, 2), (5, 4, 4, 75, 2)]
+    if tier != "quick":
+        units += [(5, 5, 3, 60, 2), (5, 5, 2, 80, 2), (6, 6, 3, 60, 2), (6, 5, 4, 70, 2), (3, 3, 2, 50, 1)]
     for (t, q, ml, mi, k) in units:
-        jobs.append({"pkgdir": "align/pals/dp", "func": "VerifC15_AlignTraps", "sched": "det", "floatsplit": True,
+        jobs.append({"pkgdir": "align/pals/dp", "func": "VerifC15_AlignTraps", "sched": "det", "floatsplit": True, "math": True,
                      "params": {"tlen": t, "qlen": q, "minlen": ml, "minid": mi, "k": k}, "timeout_s": 900 if tier == "quick" else 3000})
     # whole pipeline with explicit parameters: (|T|, |Q|, k, n, e, offset, minimum hit length, minimum identity %)
     # whole pipeline: the query carries a copy of target[tpos:tpos+plen] at qpos (fewer free letters; the free-query 4x4 instance needs > 900 s)
     pipes = [(4, 4, 2, 3, 0, 1, 3, 60, 3, 1, 0)] if tier == "quick" else [(4, 4, 2, 3, 0, 1, 3, 60, 3, 1, 0), (5, 5, 2, 4, 0, 2, 4, 75, 4, 0, 1), (4, 4, 2, 3, 0, 1, 3, 60, 0, 0, 0)]
     for (t, q, k, n, e, off, ml, mi, plen, tpos, qpos) in pipes:
-        jobs.append({"pkgdir": "align/pals", "func": "VerifC15_Pipeline", "sched": "det", "fsmodel": True, "floatsplit": True,
+        jobs.append({"pkgdir": "align/pals", "func": "VerifC15_Pipeline", "sched": "det", "fsmodel": True, "floatsplit": True,  # bit-vector mode: the k-mer index uses shifts and masks
                      "params": {"tlen": t, "qlen": q, "k": k, "n": n, "e": e, "offset": off, "minlen": ml, "minid": mi, "plen": plen, "tpos": tpos, "qpos": qpos, "recall": 0},
                      "timeout_s": 900 if tier == "quick" else 3000})
     return jobs
